@@ -347,6 +347,48 @@ def generic_programs():
         ("super:inherited-field-write", an + "class Fw extends Fb { public constructor() -> Fw { super(); } public function setIt() -> int { super.n = 9; return this.n; } }\nfunction main() -> void { Fw f = new Fw(); echo(f.setIt()); }\n", ("ok", ["9"])),
     ]
     progs += fsz
+    progs += shared_body_programs()
+    return progs
+
+
+def shared_body_programs(maxlen=3):
+    """(seed C08-5) all instantiations of a generic class share ONE syntax tree: a call site inside the generic body (this.m(), a bare m(), a
+    call on a parameter of the generic's own type, a T-typed overload) resolves per specialisation every time it runs, whichever
+    specialisation ran it first. Every sequence of <= maxlen calls over three objects of two specialisations; reference = one counter per
+    specialisation."""
+    cls = ("class Counter<T> { public static int made = 0; public T v; public constructor(T x) -> Counter<T> { this.v = x; }\n"
+           "  public function bump() -> int { made = made + 1; return made; }\n"
+           "  public function twice() -> int { this.bump(); return this.bump(); }\n"
+           "  public function bare() -> int { bump(); return made; }\n"
+           "  public function id(T x) -> T { return x; }\n"
+           "  public function get() -> T { return this.id(this.v); }\n"
+           "  public function peer(Counter<T> o) -> int { return o.bump(); } }\n")
+    decl = "Counter<int> a = new Counter<int>(1); Counter<float> b = new Counter<float>(2.5f); Counter<int> c = new Counter<int>(3);"
+    spec = {"a": "int", "b": "float", "c": "int"}
+    val = {"a": "1", "b": "2.5", "c": "3"}
+    ops = [(o, m) for o in "abc" for m in ("bump", "twice", "bare", "get")] + [("a", "peer:c"), ("c", "peer:a"), ("b", "peer:b")]
+    progs = []
+    for n in range(1, maxlen + 1):
+        for seq in itertools.product(ops, repeat=n):
+            if n == maxlen and len(set(spec[o] for o, _ in seq)) < 2:
+                continue        # the longest sequences only where both specialisations take part
+            made = {"int": 0, "float": 0}
+            body, exp = [], []
+            for o, m in seq:
+                k = spec[o]
+                if m == "get":
+                    body.append("echo(%s.get());" % o)
+                    exp.append(val[o])
+                    continue
+                if m.startswith("peer:"):
+                    body.append("echo(%s.peer(%s));" % (o, m[5:]))
+                    made[k] += 1
+                else:
+                    body.append("echo(%s.%s());" % (o, m))
+                    made[k] += 2 if m == "twice" else 1
+                exp.append(str(made[k]))
+            name = "generic:shared-body:" + ",".join("%s.%s" % x for x in seq)
+            progs.append((name, cls + "function main() -> void { %s %s }\n" % (decl, " ".join(body)), ("ok", exp)))
     return progs
 
 
